@@ -7,7 +7,7 @@ AT == {0, 3}
 In_K3_6 == One(ACGT, 3, 6)
 In_K3_AT_10 == One(AT, 3, 10)
 In_K2_5 == One(ACGT, 2, 5)
-In_K4_AT_10 == One(AT, 4, 10)
+In_K4_AT_10 == One(AT, 4, 8)
 In_K3_7 == One(ACGT, 3, 7)
 \* threshold 2 needs coverage: each read twice
 Twice(S) == {<<x[1], x[1]>> : x \in S}
